@@ -252,7 +252,7 @@ impl <T: ArrayElement> ArrayManipulate<T> for Array<T> {
 
             for i in (0..self.ndim()?).collect::<Vec<usize>>().remove_at(axis).reverse_ext() {
                 let self_shape_at_i = self.get_shape()?[i];
-                if values_shape_tmp[i] > self_shape_at_i || self_shape_at_i % values_shape_tmp[i] != 0 {
+                if values_shape_tmp[i] == 0 || values_shape_tmp[i] > self_shape_at_i || self_shape_at_i % values_shape_tmp[i] != 0 {
                     return Err(ArrayError::BroadcastShapeMismatch)
                 } else if values_shape_tmp[i] < self_shape_at_i {
                     values = values
